@@ -47,6 +47,8 @@ def run(ctx):
     ctx.do(rule_optional_subscript)
     ctx.do(rule_commit_last)
     ctx.do(rule_failed_write_leaves_no_file)
+    ctx.do(rule_raw_content_stored_only_parsed)
+    ctx.do(rule_constraint_methods_total)
     ctx.do(rule_registry_class_attr)
     ctx.do(rule_input_parsers_guarded)
     ctx.do(rule_recursion_converted)
@@ -893,3 +895,100 @@ def rule_path_components_are_names(ctx, rule_id="C17.raw-deref"):
 
 def names_of(e):
     return {n_.id for n_ in ast.walk(e) if isinstance(n_, ast.Name)}
+
+
+def rule_raw_content_stored_only_parsed(ctx, R="C17.commit-last"):
+    """FileSystemSink.add() of raw content (text or a dictionary) parses the WHOLE input before anything is written: a bundle
+    with a bad member is refused as a whole and the directory is unchanged.  In the branch for str / dict input every value
+    that is stored (handed to self.add / self._check_path_and_write) comes from the result of parse() -- taking a bundle
+    dictionary apart and adding its members one by one writes the good members before the bad one is met."""
+    from ..forward import flow_of
+    run = ctx.run
+    prog = ctx.prog
+    fi = prog.func("stix2.datastore.filesystem::FileSystemSink.add")
+    rel = fi.module.relpath
+    data = fi.params[1]
+    br = [x for x in body_walk(fi.node) if isinstance(x, ast.If) and any(
+        isinstance(c, ast.Call) and call_simple_name(c) == "isinstance" and len(c.args) == 2 and norm(c.args[0]) == data
+        and {"str", "dict"} <= {n_.id for n_ in ast.walk(c.args[1]) if isinstance(n_, ast.Name)} for c in ast.walk(x.test))]
+    if len(br) != 1:
+        raise AnalysisError("FileSystemSink.add: the branch for text / dictionary input was not found")
+    fl = flow_of(fi)
+    n = 0
+    bad = []
+    for st in br[0].body:
+        for c in ast.walk(st):
+            if isinstance(c, ast.Call) and isinstance(c.func, ast.Attribute) and norm(c.func.value) == "self" \
+                    and c.func.attr in ("add", "_check_path_and_write") and c.args:
+                n += 1
+                if "parse" not in fl.prov(c.args[0]).calls:
+                    bad.append(c)
+    if n < 2:
+        raise AnalysisError("FileSystemSink.add: fewer than 2 stores in the raw-content branch (%d)" % n)
+    run.check(not bad, R, key(rel, fi.qualname, "raw-content-stored-only-parsed"),
+              "raw content (or a piece of it) is stored without having gone through parse() of the whole input: members of a "
+              "bundle are written one by one, so a bad later member leaves the earlier ones on disk after the call has failed",
+              file=rel, line=bad[0].lineno if bad else fi.node.lineno, function=fi.qualname,
+              expected="parsed = parse(<input>, ...); store only what comes from it", found=[short(c, 70) for c in bad])
+
+
+def rule_constraint_methods_total(ctx, R="C17.optional-subscript"):
+    """_check_object_constraints() of a TOP-LEVEL object runs outside the exception wrapper of the property cleaners: whatever
+    it raises besides the library's errors escapes from parse() as it is.  Two operations that fail on particular content only:
+    (i) <text>.split(sep)[k] with k beyond the first / last piece -- IndexError when the text has no separator (values are
+    stringified by StringProperty, so any number or list gets here); (ii) a method of library objects called on the members of
+    an extensions mapping -- unregistered extensions are kept as plain dictionaries (AttributeError).  Every such site in the
+    35 constraint methods is guarded (a separator / length test; an isinstance test of the member)."""
+    run = ctx.run
+    prog = ctx.prog
+    sbase = prog.cls("stix2.base::_STIXBase")
+    n = 0
+    k_ = 0
+    for f in sorted(prog.functions.values(), key=lambda f_: f_.id):
+        if not (f.cls is not None and sbase in (f.cls.mro or []) and f.name == "_check_object_constraints"):
+            continue
+        n += 1
+        for x in body_walk(f.node):
+            # (i)
+            if isinstance(x, ast.Subscript) and isinstance(x.value, ast.Call) and isinstance(x.value.func, ast.Attribute) \
+                    and x.value.func.attr in ("split", "rsplit", "splitlines") and isinstance(x.slice, ast.Constant) \
+                    and isinstance(x.slice.value, int) and x.slice.value not in (0, -1):
+                guarded = any(("len(" in norm(t) or " in " in norm(t) or ".count(" in norm(t)) for t, pol, _ in guard_chain(x))
+                if not guarded and not _in_try(x, ("IndexError", "LookupError", "Exception")):
+                    k_ += 1
+                    run.violation(R, key(f.module.relpath, f.qualname, "piece-beyond-the-first#%d" % k_),
+                                  "IndexError can escape from the constructor / parse(): piece %d of a split is taken without a test "
+                                  "that the text has that many pieces" % x.slice.value, file=f.module.relpath, line=x.lineno,
+                                  function=f.qualname, expected="a separator / length test, or partition()", found=short(x, 70))
+            # (ii)
+            if isinstance(x, ast.For) and isinstance(x.iter, ast.Call) and isinstance(x.iter.func, ast.Attribute) \
+                    and x.iter.func.attr in ("values", "items") and "extensions" in norm(x.iter):
+                tv = x.target.elts[-1] if isinstance(x.target, ast.Tuple) else x.target
+                if isinstance(tv, ast.Name):
+                    for c in ast.walk(x):
+                        if isinstance(c, ast.Call) and isinstance(c.func, ast.Attribute) and isinstance(c.func.value, ast.Name) \
+                                and c.func.value.id == tv.id and c.func.attr not in ("get", "items", "keys", "values"):
+                            guarded = any(pol and "isinstance(%s" % tv.id in norm(t) for t, pol, _ in guard_chain(c, stop=x))
+                            if not guarded and not _in_try(c, ("AttributeError", "Exception")):
+                                k_ += 1
+                                run.violation(R, key(f.module.relpath, f.qualname, "method-of-any-extension#%d" % k_),
+                                              "AttributeError can escape from the constructor / parse(): .%s() is called on every "
+                                              "member of the extensions mapping, and an unregistered extension (a legal "
+                                              "extension-definition--... property extension, or any with allow_custom) is kept as a "
+                                              "plain dictionary" % c.func.attr, file=f.module.relpath, line=c.lineno, function=f.qualname,
+                                              expected="isinstance test of the member, or a named registered extension", found=short(c, 70))
+    if n < 30:
+        raise AnalysisError("fewer than 30 constraint methods found (%d)" % n)
+    run.ok(R, key("stix2", "<constraint methods>", "total-on-odd-content"))
+
+
+def _in_try(node, names):
+    p_ = getattr(node, "parent", None)
+    c_ = node
+    while p_ is not None and not isinstance(p_, (ast.FunctionDef, ast.AsyncFunctionDef)):
+        if isinstance(p_, ast.Try) and c_ in p_.body:
+            for h in p_.handlers:
+                if h.type is None or any(nm in norm(h.type) for nm in names):
+                    return True
+        c_, p_ = p_, getattr(p_, "parent", None)
+    return False
